@@ -191,11 +191,13 @@ def fiddler_from_diff(
       additional_converters=value_converters)
 
   body = []
+  # Aliases for values of the input config come first: new shared values may
+  # refer to them.
+  body += _cst_for_moved_value_variables(param_name, moved_value_names,
+                                         pyval_to_cst)
   body += _cst_for_new_shared_value_variables(diff.new_shared_values,
                                               new_shared_value_names,
                                               pyval_to_cst)
-  body += _cst_for_moved_value_variables(param_name, moved_value_names,
-                                         pyval_to_cst)
   body += _cst_for_changes(diff, param_name, moved_value_names, pyval_to_cst)
 
   fiddler = _cst_for_fiddler(func_name, param_name, body,
@@ -232,13 +234,42 @@ def _cst_for_new_shared_value_variables(
     values: Tuple[Any], names: List[str],
     pyval_to_cst: PyValToCstFunc) -> List[cst.CSTNode]:
   """Returns a list of `CSTNode`s for creating new shared value variables."""
+  # A shared value may refer to other shared values, which must be defined
+  # first: emit them in dependency order (and otherwise sorted by name).
+  dependencies = [
+      _referenced_shared_value_indices(value) for value in values
+  ]
+  remaining = set(range(len(values)))
+  order = []
+  while remaining:
+    ready = [
+        index for index in remaining if not (dependencies[index] & remaining)
+    ]
+    if not ready:  # Reference cycle; fall back to name order.
+      ready = list(remaining)
+    index = min(ready, key=lambda index: names[index])
+    order.append(index)
+    remaining.remove(index)
+
   statements = []
-  for value, name in sorted(zip(values, names), key=lambda item: item[1]):
+  for index in order:
     statements.append(
         cst.Assign(
-            targets=[cst.AssignTarget(target=cst.Name(name))],
-            value=pyval_to_cst(value)))
+            targets=[cst.AssignTarget(target=cst.Name(names[index]))],
+            value=pyval_to_cst(values[index])))
   return [cst.SimpleStatementLine([stmt]) for stmt in statements]
+
+
+def _referenced_shared_value_indices(value: Any) -> Set[int]:
+  """Returns the indices of `new_shared_values` that `value` refers to."""
+  result = set()
+  for node, _ in daglish.iterate(value):
+    if (
+        isinstance(node, diffing.Reference)
+        and node.root == 'new_shared_values'
+    ):
+      result.add(node.target[0].index)
+  return result
 
 
 def _cst_for_moved_value_variables(
